@@ -209,18 +209,10 @@ def rewrite_all_references(
         return value
 
     pattern = '|'.join(r'\b' + re.escape(match) + r'\b' for match in sorted(rewrites, key=len, reverse=True))
-    substituted = set()
-
-    def substitute(matched):
-        # VV: as before, only the first occurrence of a reference is rewritten
-        match = matched.group(0)
-        if match in substituted:
-            return match
-        substituted.add(match)
-        return rewrites[match]
 
     try:
-        value = re.sub(pattern, substitute, value)
+        # VV: a string may use the same reference more than once (e.g. `input:ref/a.txt input:ref/b.txt`)
+        value = re.sub(pattern, lambda matched: rewrites[matched.group(0)], value)
     except Exception:
         flowirLogger.critical("Failed to res.sub(\"%s\", %s, \"%s\"" % (pattern, rewrites, value))
         raise
